@@ -44,7 +44,10 @@ func PackSize(format string) (uint, error) {
 			return 0, s.err
 		}
 	}
-
+	if s.alignOnly {
+		// "X" must be followed by the option it takes its alignment from
+		return 0, errExpectedOption
+	}
 	return s.size, nil
 }
 
